@@ -1009,3 +1009,9 @@ mod tests {
         subscribers.send(Event::NeighborUp(pk)).await;
     }
 }
+
+#[cfg(feature = "verif")]
+#[doc(hidden)]
+#[allow(missing_docs, missing_debug_implementations, dead_code, unused)]
+#[path = "/verif/kani/incrate/engine_live.rs"]
+pub mod verif_incrate;
